@@ -15,10 +15,10 @@ SearchLimit == 6                                 \* exhaustive tiling search in 
 
 RatNear(q, rat, tol) == Near(q, rat[1], rat[2], tol)
 
-C04(i) ==
+C04(i, m) ==          \* m = Mask(Ev(i).s), computed once per line (shared with C12)
   LET e == Ev(i) IN
   (IF (IsReset(i) \/ Rule(i)) /\ e.ts.type # LAST
-   THEN { <<"C04.mask_eq_legal", e.ts.obs.action_mask = Mask(e.s)>> } ELSE {})
+   THEN { <<"C04.mask_eq_legal", e.ts.obs.action_mask = m>> } ELSE {})
   \cup
   (IF Rule(i) THEN
      LET b == e.a[1] + 1  p == Pre(i) IN
@@ -112,26 +112,27 @@ C11(i) ==
   C11Group(i, NB, e.s.step_count, AllPlaced(e.s))
   \cup (IF Rule(i) THEN { <<"C11.within_structural_horizon", e.i >= NB => e.ts.type = LAST>> } ELSE {})
 
-C12(i) ==
+C12(i, m) ==
   LET e == Ev(i) IN
   IF IsReset(i) \/ Rule(i) THEN
     { <<"C12.obs_field_grid", e.ts.obs.grid = e.s.grid>>,
       <<"C12.obs_field_blocks", e.ts.obs.blocks = e.s.blocks>>,
-      <<"C12.obs_field_action_mask", e.ts.obs.action_mask = Mask(e.s)>>,
+      <<"C12.obs_field_action_mask", e.ts.obs.action_mask = m>>,
       <<"C12.state_mask_copy", e.s.action_mask = e.ts.obs.action_mask>> }
   ELSE {}
 
 Clauses(i) ==
+  LET m == Mask(Ev(i).s) IN
         ( (IF On("C01") THEN C01Group(i) ELSE {})
      \cup (IF On("C03") THEN C03Group(i, FALSE) ELSE {})
-     \cup (IF On("C04") THEN C04(i) ELSE {})
+     \cup (IF On("C04") THEN C04(i, m) ELSE {})
      \cup (IF On("C05") THEN C05(i) ELSE {})
      \cup (IF On("C06") THEN C06(i) ELSE {})
      \cup (IF On("C08") THEN C08(i) ELSE {})
      \cup (IF On("C09") THEN C09(i) ELSE {})
      \cup (IF On("C10") THEN C10(i) ELSE {})
      \cup (IF On("C11") THEN C11(i) ELSE {})
-     \cup (IF On("C12") THEN C12(i) ELSE {}) )
+     \cup (IF On("C12") THEN C12(i, m) ELSE {}) )
 
 RewardNum(i) == RewQ(Ev(i))
 RewardAlt(i) == IF Ev(i).main THEN Ev(i).alt.reward.q[1] ELSE 0
